@@ -345,6 +345,8 @@ func (im *Impl) Exec(o Op) (r Resp) {
 			synctest.Wait()
 			im.LS.DestroySession(s.ctx)
 		}
+	case "skipreq": // metamorphic replays: the request is left out but keeps its request number
+		im.Nreq++
 	case "trylock":
 		req := im.Nreq
 		im.Nreq++
